@@ -151,9 +151,12 @@ def run_property(pid, tier, repo):
             "jobs": ["%s<%s>" % j for j in jobs]}
 
 
-def native_search(pid, tier, repo, types=("u8", "i8", "u64", "i32")):
+def native_search(pid, tier, repo, types=("u8", "i8", "u64", "i32"), failing_units=None):
     """bounded search on the real code for a concrete witness; returns (witnesses, summaries, error)"""
-    cfg = PROP_UNITS[pid]
+    cfg = dict(PROP_UNITS[pid])
+    if not cfg["search"] and failing_units:
+        # C04: pick the search that exercises the failing data structure
+        cfg["search"] = "treesearch" if "tree" in failing_units else ("aliassearch" if "alias" in failing_units else None)
     if not cfg["search"]: return [], [], None
     bindir, err = replaybuild.build(repo, bins=[cfg["search"]])
     if not bindir: return [], [], "replay crate does not build: " + err[-500:]
